@@ -15,7 +15,8 @@ ASSUMPTIONS = [
     "a link command cut off by the link going down is abandoned (its remaining word is not sent after re-entry)",
     "the next expected sequence number survives a disable and is zeroed by usb_reset (as in the gateware)",
     "the partner's credit rules (see C37) are assumed between re-entries",
-    "R ties: shrunk configurations of HeaderPacketReceiver's own elaborate() (see props/C37_hdrrx.py): buffer_count 1 (quick) and 2 (thorough), "
+    "R ties: shrunk configurations of HeaderPacketReceiver's own elaborate() (see props/C37_hdrrx.py): buffer_count 1 and 2 (quick: n = 2 with enable / usb_reset / source.ready free, "
+    "which covers a one-cycle restart in the very cycle a non-final LCRD completes), more alphabets in thorough, "
     "stubbed raw receiver; the unmodified HeaderPacketReceiver(buffer_count=4): correspondence + specification monitor over simulator traces with random disables / resets",
     "the raw receiver's parser state is NOT reset by a disable (a header straddling a re-entry is parsed as one header); C38 is about the bookkeeping",
 ]
@@ -23,16 +24,49 @@ TIE_IMPORTS = "From LunaModel Require Import Crc HdrRx HdrRx_proofs HdrRxReentry
 
 
 def targets(tier):
-    ts = [H.mk_stub(1, 1, 1), H.mk_full(4)]
+    ts = [H.mk_stub(1, 1, 1), H.mk_stub(2, 1, 1), H.mk_full(4)]
     if tier != "quick":
         ts += [H.mk_stub(2, 2, 1), H.mk_stub(4, 3, 2), H.mk_full(2)]
     return ts
 
 
+def restart_sweep(target, tier):
+    """Directed traces: a ONE-cycle usb_reset (link up) or one-cycle drop of enable at every cycle offset of the initial
+    advertisement (LGOOD, LCRD A..) and, by a second restart, of the advertisement that follows a re-entry, with
+    source.ready always high and with back-pressure (ready every 2nd / every 3rd cycle).  No headers arrive, so the
+    partner assumptions hold trivially and every re-entry is judged by the specification."""
+    n = target.params["n"]
+    span = 3 * (n + 1) + 4
+    base = dict(enable=1, usb_reset=0, queue_ready=0, retry_received=0, retry_required=0, keepalive_required=0,
+                reject_power_state=0, source_ready=1)
+    if target.kind == "stub":
+        base.update(new_packet=0, bad_packet=0, bad_sequence=0, packet=0)
+    else:
+        base.update(sink_valid=1, sink_data=0, sink_ctrl=0)
+    periods = (1, 2, 3) if tier != "quick" or target.kind == "stub" else (1, 2)
+    out = []
+    for period in periods:
+        scale = period
+        for kind in ("usb_reset", "enable"):
+            for off in range(0, span * scale + 2):
+                second = off + 2 + (off * 7 + 3) % (span * scale)
+                L = second + span * scale + 6
+                tr = []
+                for t in range(L):
+                    c = dict(base)
+                    c["source_ready"] = int(t % period == period - 1) if period > 1 else 1
+                    if t in (off, second):
+                        if kind == "usb_reset": c["usb_reset"] = 1
+                        else: c["enable"] = 0
+                    tr.append(c)
+                out.append(tr)
+    return out
+
+
 def traces(target, rng, tier):
     if target.kind == "stub":
-        return H.stub_traces(target, rng, tier, restarts=True)
-    return H.full_traces(target, rng, tier, restarts=True)
+        return H.stub_traces(target, rng, tier, restarts=True) + restart_sweep(target, tier)
+    return H.full_traces(target, rng, tier, restarts=True) + restart_sweep(target, tier)
 
 
 def r_alphabets(t, tier):
@@ -48,7 +82,7 @@ def r_alphabets(t, tier):
         if tier != "quick":
             out.append(("wide", alpha([], flow + ["retry_received", "packet"]),
                         "enable, usb_reset, source.ready, new_packet, queue.ready, bad_packet, retry_received, packet free"))
-    elif n == 2:
+    elif n == 2 and t.params["sw"] == 2:
         out.append(("flow", alpha([], flow), "enable, usb_reset, source.ready, new_packet, queue.ready, bad_packet free"))
     return out
 
@@ -81,13 +115,17 @@ def obligations(targets, tier):
             obs.append(tie.corr(f"corr_{t.name}", t, mstep=f"core_mstep {core} {hw}", m0=f"core_init {a['n']} {a['cw']} {a['sw']}",
                                 describe="bookkeeping model vs simulator, all inputs random including enable / usb_reset"))
             obs.append(tie.cmon(f"spec_{t.name}", t,
-                                mon=f"(sp_monN {a['n']} {a['sw']} {a['down']} 8 (cin_of {hw}) (unpack_cout {hw}))",
-                                m0=f"(sp_enc 8 (sp_fresh {a['n']} {a['sw']} 0))",
-                                describe="re-entry specification sp_mon as oracle over simulator traces with random disables / resets"))
+                                mon=f"(sp_monR {a['n']} {a['sw']} {a['down']} 8 {hw})",
+                                m0=f"(2 * sp_enc 8 (sp_fresh {a['n']} {a['sw']} 0))",
+                                describe="re-entry specification sp_mon as oracle over simulator traces with random disables / resets and a directed "
+                                         "sweep of one-cycle resets / disables over every offset of the advertisement (re-synchronised at the next link-down "
+                                         "cycle whenever the partner breaks its credit rules)"))
         else:
-            obs.append(tie.cmon(f"spec_{t.name}", t, mon=f"(hs_monN {a['n']} 3 {a['down']} 130)",
-                                m0=f"(hs_enc 130 (rsx_init, sp_fresh {a['n']} 3 0))",
-                                describe="sink-level specification as oracle over simulator traces of the real HeaderPacketReceiver with random disables / resets"))
+            obs.append(tie.cmon(f"spec_{t.name}", t, mon=f"(hs_monR {a['n']} 3 {a['down']} 130)",
+                                m0=f"(2 * hs_enc 130 (rsx_init, sp_fresh {a['n']} 3 0))",
+                                describe="sink-level specification as oracle over simulator traces of the real HeaderPacketReceiver with random disables / resets "
+                                         "and a directed sweep of one-cycle resets / disables over every offset of the advertisement, with and without back-pressure "
+                                         "(re-synchronised at the next link-down cycle whenever the partner breaks its credit rules)"))
             obs.append(tie.corr(f"corr_{t.name}", t, mstep=f"hr_mstep {core}", m0=f"hr_init {a['n']} {a['cw']} 3",
                                 describe=f"complete HeaderPacketReceiver(buffer_count={a['n']}) model vs simulator with random disables / resets"))
     return obs
